@@ -100,6 +100,12 @@ def _mem(writer, table, **kw):
     return etl.MemorySource(m.getvalue())
 
 
+def _setitems(view, items):
+    for k, v in items:
+        view[k] = v
+    return view
+
+
 class LazyRows(object):
     """A table made of a header and a lazily produced sequence of rows (for accessors that return row iterables)."""
     def __init__(self, header, rows):
@@ -133,6 +139,10 @@ def entries():
     add('annex', 2, lambda s: etl.annex(s[0], s[1]), S)
     add('addcolumn:lazycol', 2, lambda s: etl.addcolumn(s[0], 'c', etl.values(s[1], 0)), S + ' nojudge')
     add('addfield', 1, lambda s: etl.addfield(s[0], 'n', 42), S)
+    # suffix notation: arguments given after construction through __setitem__
+    add('rename:setitem', 1, lambda s: _setitems(etl.rename(s[0]), [('a', 'b')]), S)
+    add('convert:setitem', 1, lambda s: _setitems(etl.convert(s[0]), [('v', lambda v: v), ('a', 'upper')]), S)
+    add('fieldmap:setitem', 1, lambda s: _setitems(etl.fieldmap(s[0]), [('kk', 'k'), ('vv', ('v', lambda v: v))]), S)
     add('addfield:fn', 1, lambda s: etl.addfield(s[0], 'n', lambda r: r['v'], index=1), S)
     add('addfields', 1, lambda s: etl.addfields(s[0], [('n', 1), ('m', lambda r: r['k'], 0)]), S)
     add('addcolumn', 1, lambda s: etl.addcolumn(s[0], 'c', [10, 20, 30]), S)
